@@ -3,6 +3,7 @@ from ..framework import rule
 from ..core import *
 from ..fdai import FDAI
 from ..lib import *
+from .c14 import store_origin
 
 SOCK = 'socket::tcp::Socket'
 STATE = 'socket::tcp::State'
@@ -451,7 +452,8 @@ def r17_11(ctx):
         if f[0] != 'rel':
             return False
         for lo, hi, ops in ((f[2], f[3], ('Le', 'Lt', 'Eq')), (f[3], f[2], ('Ge', 'Gt', 'Eq'))):
-            if f[1] in ops and WS in leafs(lo) and SEQ not in leafs(lo) and SEQ in leafs(hi) and WS not in leafs(hi) \
+            # RCV.NXT = remote_seq_no + rx_buffer.len(): the first octet still unread alone is left of it while data is queued
+            if f[1] in ops and WS in leafs(lo) and f"F:{SOCK}.rx_buffer" in leafs(lo) and SEQ not in leafs(lo) and SEQ in leafs(hi) and WS not in leafs(hi) \
                     and not any('payload' in l for l in leafs(hi)):
                 return True
         return False
@@ -472,3 +474,38 @@ def r17_11(ctx):
                     "a blind attacker needs to hit a much larger range of sequence numbers to reset the connection", body=b, bb=badp[0][0], path=badp[0][1])
         else:
             ctx.ok(('rst bare seq', S), sample=dict(state=S, control='Rst', guard='RCV.NXT <= SEG.SEQ'))
+
+
+@rule('R17.12', ['C17', 'C01'], floor=6, clause='SND.UNA never moves backwards: process() stores the acknowledgement number into local_seq_no only behind `ack >= SND.UNA` (or the exact ISS+1 tests of the opening states), whatever else the segment carries')
+def r17_12(ctx):
+    F = ctx.F
+    b = ctx.method(SOCK, 'process')
+    ACK, UNA = f"F:{REPR}.ack_number", f"F:{SOCK}.local_seq_no"
+    ws = [w['bb'] for w in F.field_writes() if w['fn'] == b.key and w['kind'] == 'store' and w['adt'] == SOCK and w['field'] == 'local_seq_no'
+          and ACK in leafs(store_origin(F, b, w))]
+    ctx.need(ws, "local_seq_no = ack_number in tcp::process")
+
+    def notold(f):
+        if f[0] != 'rel':
+            return False
+        for lo, hi, ops in ((f[3], f[2], ('Ge', 'Gt', 'Eq')), (f[2], f[3], ('Le', 'Lt', 'Eq'))):
+            if f[1] in ops and UNA in leafs(lo) and ACK not in leafs(lo) and ACK in leafs(hi) and UNA not in leafs(hi):
+                return True
+        return False
+    g0 = guard_edges(F, b, notold)
+    ctx.need(g0, "comparison of the acknowledgement number with SND.UNA in tcp::process")
+    for S in F.variants(STATE):
+        if S in ('Listen', 'Closed'):
+            continue
+        for C_ in ('None', 'Psh', 'Syn', 'Fin'):
+            r = partition_run(ctx, b, S, C_, 'Some')
+            ok = r.edge_ok()
+            sites = feasible_sites(b, ws, ok)
+            if not sites:
+                continue
+            badp = cut_sites(b, sites, g0, ok)
+            if badp:
+                ctx.bad(f"process|{S}|{C_}|una-backwards", f"in {S} a {C_} segment can reach `local_seq_no = ack_number` without `ack_number >= SND.UNA` on the way: an old acknowledgement "
+                        "(with text) rewinds SND.UNA, after which an ACK that does not cover the FIN is taken for the ACK of the FIN", body=b, bb=badp[0][0], path=badp[0][1])
+            else:
+                ctx.ok(('una monotone', S, C_), sample=dict(state=S, control=C_, guard='ack_number >= SND.UNA'))
